@@ -31,6 +31,7 @@ for d in sorted(glob.glob(V + '/seeded/C*')):
     res = '; '.join('%s: %s' % (k, re.sub(r' replay=\S+', '', v).replace('VIOLATION property=' + k, 'VIOLATION')) for k, v in m.get('checks_run_against_it', {}).items())
     out.append('| %s | %s | %s | %s |' % (os.path.basename(d), cl(m.get('breaks', ''), 300), cl(m.get('needs_to_manifest', ''), 260), cl(res, 200)))
 text = '\n'.join(out) + '\n'
+text = re.sub(r'[\x00-\x08\x0b-\x1f]', ' ', text)
 p = V + '/DESIGN.md'
 s = open(p).read()
 b, e = '<!-- BEGIN GENERATED section 13 -->', '<!-- END GENERATED section 13 -->'
